@@ -110,6 +110,10 @@ impl F {
     fn src_u16(self) -> bool {
         matches!(self, F::U16U8P | F::U16U8 | F::U16StrP | F::U16Str | F::U16L1 | F::Ensure | F::CpBLA)
     }
+    /// the function writes into a `&mut str` or returns a `Cow<str>` (C05)
+    fn yields_str(self) -> bool {
+        matches!(self, F::U16StrP | F::U16Str | F::L1StrP | F::L1Str | F::DecL1)
+    }
     fn needs_str_src(self) -> bool {
         matches!(self, F::StrU16 | F::EncL1)
     }
@@ -195,6 +199,10 @@ struct Ctx {
     fill_variant: usize,
     /// C18 mode: every case is executed with all three fills; only differences are reported, under C18
     c18: bool,
+    /// C05 / C06 mode: the same generator, but only the failures those properties are about are
+    /// reported, under that property id (C05: a `&mut str` / `String` / `Cow<str>` left or returned
+    /// invalid; C06: out-of-bounds writes, counts beyond the buffers, panics within the documented preconditions)
+    only: Option<&'static str>,
 }
 
 impl Ctx {
@@ -209,6 +217,7 @@ impl Ctx {
             fail_classes: HashMap::new(),
             fill_variant: 0,
             c18: false,
+            only: None,
         }
     }
     fn next_align(&mut self) -> usize {
@@ -878,7 +887,20 @@ fn run_case(out: &mut Out, cx: &mut Ctx, f: F, src: &Src, dstlen: usize, align: 
         let n = cx.fail_classes.entry(class).or_insert(0);
         *n += 1;
         if *n <= 12 && !cx.c18 {
-            out.fail(PROP, &lhs, m);
+            match cx.only {
+                None => out.fail(PROP, &lhs, m),
+                Some("C05") => {
+                    if m.contains("invalid UTF-8") || m.contains("not valid UTF-8") {
+                        out.fail("C05", &lhs, m);
+                    }
+                }
+                Some("C06") => {
+                    if m.starts_with("out-of-bounds write") || m.starts_with("unexpected panic") || m.contains("exceeds dst len") || m.starts_with("read/written mismatch") && m.contains("exceeds") {
+                        out.fail("C06", &lhs, m);
+                    }
+                }
+                Some(_) => {}
+            }
         }
     }
 }
@@ -1595,13 +1617,21 @@ fn extras(out: &mut Out, cx: &mut Ctx, al: &Alphas, rng: &mut Rng, f: F, thoroug
 }
 
 pub fn generate(prop: &str, out: &mut Out, thorough: bool, seed: u64) -> bool {
-    if prop != PROP && prop != "C18" {
+    if prop != PROP && prop != "C18" && prop != "C05" && prop != "C06" {
         return false;
     }
     let mut cx = Ctx::new();
     cx.c18 = prop == "C18";
+    cx.only = match prop {
+        "C05" => Some("C05"),
+        "C06" => Some("C06"),
+        _ => None,
+    };
     let al = Alphas::new();
     for (fidx, &f) in ALL_FNS.iter().enumerate() {
+        if prop == "C05" && !f.yields_str() {
+            continue;
+        }
         let mut rng = Rng::new(seed ^ (0xC15_0000 + fidx as u64));
         for len in 0..=MAXLEN {
             gen_fn_len(out, &mut cx, &al, &mut rng, f, fidx, len, thorough, seed);
